@@ -648,6 +648,14 @@ func runSchedTest(t *testing.T, sp schedSpec) {
 				stats.Eval()
 				return
 			}
+			for _, c := range sr.cmds {
+				if strings.HasPrefix(c.Err, "harness:") {
+					// the command could not even be started (argument list too long ...)
+					stats.Label("harness.could_not_start_a_command_execution_not_judged")
+					stats.Eval()
+					return
+				}
+			}
 			cmds = sr.cmds
 			growth, mutex, sameLog = sr.growth, sr.mutex, sr.sameLog
 			if sr.lockOverlap {
